@@ -1,1 +1,2 @@
 import Hive
+import Audit.C11
